@@ -35,7 +35,15 @@ def ansiOp (op : String) (j : Json) : Except String Res := do
     pure { model := js (Ansi.apply s st) }
   | "indent" =>
     let s ← str j "s"; let p ← str j "prefix"; let b ← bool j "first"
-    pure { model := js (Ansi.indent s p b) }
+    -- the promised shape, on what is displayed: the prefix (at the start if asked, and) after every
+    -- line break — also after the last one
+    let out := implStr j
+    let wf (x : Str) : Bool := !(Safe.strip x).contains (Char.ofNat 27)
+    let shown := Safe.strip s
+    let pre := Safe.strip p
+    let expected := (if b then pre else []) ++ (shown.flatMap fun c => if c = '\n' then '\n' :: pre else [c])
+    let shapeOk := !(implIsStr j && wf s && wf p) || Safe.strip out = expected
+    pure { model := js (Ansi.indent s p b), preds := [("indent_prefix_after_every_break", shapeOk)] }
   | "pad" =>
     let s ← str j "s"; let w ← int j "w"
     let out := implStr j
